@@ -101,7 +101,7 @@ theorem C11_dim_mismatch_document_located (d : Doc') (hvoc : d.inVocab = true) (
   exact h
 
 /-- what the documented-vocabulary hypothesis excludes by value: the documented attributes on which `process_*`
-    applies a check DIFFERENT from the documented one (the code is more liberal: `C11_doc_refined`), computed from the
+    applies a check DIFFERENT from the documented one (the code is more liberal: `doc_refined_table`, `Lemmas/GkfValues.lean`), computed from the
     regenerated `valueCheck` table -/
 theorem C11_loose_attributes : ∀ h : Handler, looseAttrs h =
     (match h with
